@@ -17,7 +17,8 @@ EXPLANATION = (
     "functions reachable from the parser adapters (rio model/parser, turtle/xml/jsonld parsers, jsonld vocabulary) is "
     "auto-discharged (accessor under the matching kind() arm, Regex::new(const), constant index, slice after "
     "starts_with, callee that always returns Some), discharged by L8.1, or matched by exact key against the audited "
-    "table; anything else is a violation. (R8.5) every impl Term overrides the accessors of each kind its kind() can "
+    "table; anything else is a violation; an unchecked construction resting on a back-end guarantee that a reproduced "
+    "counter-example has refuted (table REFUTED_BACKEND_GUARANTEES) is reported. (R8.5) every impl Term overrides the accessors of each kind its kind() can "
     "return. NOT decided: termination, stack use and panics *inside* the third-party parsers.")
 
 # audited sites: key -> (max occurrences, reason)
